@@ -748,8 +748,15 @@ func concSwap(c *harness.Ctx) {
 	// request may fail, but it has to return, and so has every Swap that was waiting behind it
 	flaky := rng.Intn(3) == 0
 	fseed := uint64(rng.Int63())
+	// the stores swapped in carry different names, or all the same one (a reload of the configuration naming the same
+	// location: new connections, other options, a name says nothing about either)
+	sameName := rng.Intn(2) == 0
 	mk := func(k int) *dsu.MemStore {
-		ms := dsu.NewMemStore(fmt.Sprintf("s%d", k))
+		name := fmt.Sprintf("s%d", k)
+		if sameName {
+			name = "http://store.example/location"
+		}
+		ms := dsu.NewMemStore(name)
 		for r := range ids {
 			ms.PutRaw(ids[r], datas[r])
 		}
